@@ -15,6 +15,13 @@ def main():
     except ImportError as e:
         print("no check for %s: %s" % (prop, e))
         sys.exit(2)
+    # checks share build directories and the campaign cache under .cache: invocations started in
+    # parallel run one after the other (the second finds the cached campaign)
+    import fcntl
+    from .common import CACHE
+    os.makedirs(CACHE, exist_ok=True)
+    _lock = open(os.path.join(CACHE, "check.lock"), "w")
+    fcntl.flock(_lock, fcntl.LOCK_EX)
     v = Verdict(prop, a.tier)
     if a.replay:
         rc = mod.replay(v, a.replay)
